@@ -10,7 +10,8 @@ package iterator
 //@   nopanic off
 //@   modifies *
 //@   ghost var stored bool = false
-//@   at store err assert value == err
+//@   ghost var e0 error = err
+//@   at store err assert value == e0
 //@   at store err ghost stored = true
 //@   at close Next assert chan == it.Next && stored
 //@   at close Done assert chan == it.Done
